@@ -191,8 +191,14 @@ def run_shard(desc, ctx):
     try:
         for k in range(desc['ndocs']):
             d2 = (k % 8 == 7)
-            src, recs = gen_css.gen_sheet(rng, p_sip=0.5 if d2 else 0.0)
-            if len(src) > 600:
+            if k % 6 == 5:
+                # deep and narrow: pooled-object and stack thresholds lie beyond depth 4
+                src, recs = gen_css.gen_sheet(rng, max_top=1, max_depth=rng.randint(5, 9), max_items=2, p_sip=0.0)
+                d2 = False
+                ctx.ev('document:deep')
+            else:
+                src, recs = gen_css.gen_sheet(rng, p_sip=0.5 if d2 else 0.0)
+            if len(src) > 900:
                 continue
             check_doc(src, recs, ctx, cm, d2=d2)
     finally:
